@@ -8,6 +8,7 @@ package fallback
 //@ frozen config.BaseFailurePolicy, config.fn, config.onFallbackExecuted, fallback.config, executor.BaseExecutor, executor.fallback
 
 //@ func (*executor).Apply$1
+//@   beforecall e.fn: assert [C14.user_callback_gets_copy] userCopy(callarg_0)
 //@   dyntype policy.Executor *executor
 //@   inlinecalls (*BaseExecutor).PostExecute
 //@   requires e != nil && e.BaseExecutor != nil && e.fallback != nil && e.config != nil && e.fn != nil && innerFn != nil
